@@ -113,6 +113,29 @@ pub fn run(s: &mut Session, ctx: &Ctx) {
                 }
             }
         }
+        // the same round trips through the `ColorSpace` trait (the path `Color::mix` takes); on a
+        // sub-lattice, since these are the same conversions behind another entry point
+        if (r as u32 + 3 * g as u32 + 7 * b as u32) % 61 == 0 {
+            use pastel::colorspace::ColorSpace;
+            let trips: Vec<(&str, Result<Color, ()>)> = vec![
+                ("RGBA<f64>", std::panic::catch_unwind(|| pastel::RGBA::<f64>::from_color(&c).into_color()).map_err(|_| ())),
+                ("HSLA", std::panic::catch_unwind(|| pastel::HSLA::from_color(&c).into_color()).map_err(|_| ())),
+                ("HSVA", std::panic::catch_unwind(|| pastel::HSVA::from_color(&c).into_color()).map_err(|_| ())),
+                ("Lab", std::panic::catch_unwind(|| pastel::Lab::from_color(&c).into_color()).map_err(|_| ())),
+                ("LCh", std::panic::catch_unwind(|| pastel::LCh::from_color(&c).into_color()).map_err(|_| ())),
+                ("OkLab", std::panic::catch_unwind(|| pastel::OkLab::from_color(&c).into_color()).map_err(|_| ())),
+            ];
+            for (name, t) in trips {
+                match t {
+                    Err(()) => acc.check(false, "roundtrip", "panic", || format!("rgba({},{},{},{:?}) via ColorSpace for {}", r, g, b, alpha, name), || "panic".into()),
+                    Ok(c2) => {
+                        let o = c2.to_rgba();
+                        acc.check((o.r, o.g, o.b) == (r, g, b) && o.alpha.to_bits() == alpha.to_bits(), "roundtrip-through-colorspace-trait", &format!("impl ColorSpace for {}", name),
+                            || format!("rgba({},{},{},{:?})", r, g, b, alpha), || format!("came back as rgba({},{},{},{:?})", o.r, o.g, o.b, o.alpha));
+                    }
+                }
+            }
+        }
         // to_u32 layout 0xRRGGBB
         let n = c.to_u32();
         acc.check(
